@@ -1609,19 +1609,19 @@ Lemma Tr_TrO s : Tr s -> TrO s.
 Proof. intros []. constructor; auto. intros * H. destruct (tr_fin0 _ _ _ _ _ _ _ H) as (A & B & C & D & _). auto. Qed.
 
 Lemma boot_spec e c s s' :
-  s' = boot e c s -> wf_cfg c -> TrO s -> 0 <= cnt0 s -> tb s <= now s -> NWw s' ->
+  s' = boot e c s -> wf_cfg c -> TrO s -> 0 <= cnt0 s -> tb s <= now s -> 0 <= upc s -> upc s * 4294967296 <= cnt0 s + (now s - tb s) -> NWw s' ->
   Good s' /\ cnt0 s' = cnt0 s /\ tb s' = tb s /\ now s <= now s' /\ (exists add, outs s' = add ++ outs s) /\
   (forall y, In y (slots s') -> active y = true -> now s <= g_t0 y).
 Proof.
-  intros Es' W TO C0 Ct N. unfold boot, boot_l in Es'.
-  remember (t_arm TUP UPTIME_POLL_MS true (set_upc 0 (set_upl 0 (set_seqc 0 (set_li 0 (set_tcd tmr0 (set_tsv tmr0 (set_tup tmr0 s)))))))) as s1 eqn:Es1.
+  intros Es' W TO C0 Ct Cu CL N. unfold boot, boot_l in Es'.
+  remember (t_arm TUP UPTIME_POLL_MS true (set_upl 0 (set_seqc 0 (set_li 0 (set_tcd tmr0 (set_tsv tmr0 (set_tup tmr0 s))))))) as s1 eqn:Es1.
   remember (set_ram_relay (fl_relay s1) (set_ram_t2 (fl_t2 s1) s1)) as s2 eqn:Es2.
   remember (set_slots (repeat slot_free 8) (set_delay 0 s2)) as s3 eqn:Es3.
   remember (set_chfl (if c_lateflags c then map (fun _ => 0) (c_relays c) else map r_chfl (c_relays c)) s3) as s4 eqn:Es4.
   remember (set_obuf [] (set_regreq false (set_queue [] (set_conn false (set_reg false (set_gout 0 s4)))))) as s5 eqn:Es5.
   remember (fold_left (restore_relay false c) (enum 0 (c_relays c)) s5) as s6 eqn:Es6.
   assert (A5 : slots s5 = repeat slot_free 8 /\ delay s5 = 0 /\ tcd s5 = tmr0 /\ cnt0 s5 = cnt0 s /\ tb s5 = tb s /\ now s5 = now s /\
-               upc s5 = 0 /\ upl s5 = 0 /\ outs s5 = outs s /\ time2 s5 = time2 s).
+               upc s5 = upc s /\ upl s5 = 0 /\ outs s5 = outs s /\ time2 s5 = time2 s).
   { subst s5 s4 s3 s2 s1. cbn. repeat split; reflexivity. }
   destruct A5 as (a1 & a2 & a3 & a4 & a5 & a6 & a7 & a8 & a9 & a10).
   assert (G5 : Good s5).
@@ -1710,14 +1710,16 @@ Proof.
       pose proof (advance_frame e c dt s Wx) as F1.
       split; [auto|]. split; [apply F1|]. split; [auto|]. split; [apply F1|]. intros _. split; apply F1.
     - unfold crash in *.
-      remember (set_tb (now s) (set_cnt0 (c_boot2 c) (emit (OReboot (now s)) s))) as s0 eqn:Es0.
+      remember (set_upc 0 (set_tb (now s) (set_cnt0 (c_boot2 c) (emit (OReboot (now s)) s)))) as s0 eqn:Es0.
       assert (TO : TrO s0).
-      { pose proof (Tr_TrO _ (g_tr _ G)) as []. subst s0. constructor; cbn [outs set_tb set_cnt0 emit set_outs now].
+      { pose proof (Tr_TrO _ (g_tr _ G)) as []. subst s0. constructor; cbn [outs set_upc set_tb set_cnt0 emit set_outs now].
         - intros * [E|H]; [discriminate|]. destruct (to_fin0 _ _ _ _ _ _ _ H) as (A & B & C & D). repeat split; auto. right; auto.
         - cbn [fins]. auto. }
       destruct (boot_spec e c s0 _ eq_refl W TO) as (G1 & A1 & A2 & A3 & (add & A4) & A5).
       + subst s0. cbn. apply (wf_boot2 _ W).
       + subst s0. cbn. lia.
+      + subst s0. cbn. lia.
+      + subst s0. cbn. pose proof (wf_boot2 _ W). lia.
       + auto.
       + assert (N0 : now s0 = now s) by (subst s0; reflexivity).
         assert (O0 : outs s0 = OReboot (now s) :: outs s) by (subst s0; reflexivity).
@@ -1760,7 +1762,10 @@ Proof.
   assert (TO : TrO (init c)) by (constructor; cbn; [intros; contradiction|constructor]).
   assert (C0 : 0 <= cnt0 (init c)) by (cbn; apply (wf_boot _ W)).
   assert (Ct : tb (init c) <= now (init c)) by (cbn; lia).
-  destruct (boot_spec e c (init c) s eq_refl W TO C0 Ct N1) as (G & _).
+  assert (Cu : 0 <= upc (init c)) by (cbn; apply Z.div_pos; [apply (wf_boot _ W)|lia]).
+  assert (CL : upc (init c) * 4294967296 <= cnt0 (init c) + (now (init c) - tb (init c))).
+  { cbn [upc cnt0 now tb init]. pose proof (Z.mul_div_le (c_boot c) 4294967296 ltac:(lia)). lia. }
+  destruct (boot_spec e c (init c) s eq_refl W TO C0 Ct Cu CL N1) as (G & _).
   eapply Good_passive; eauto.
 Qed.
 
@@ -2342,18 +2347,18 @@ Definition OTO (e : bool) (S : Z) (l : list out) : Prop :=
   e = true -> forall tcb ch tg t0 dur u0 u, In (GFinish tcb ch tg t0 dur u0 u) l -> tcb < t0 + dur * 1000 + OTB S.
 
 Lemma boot_J e S c s s' :
-  s' = boot e c s -> wf_cfg c -> TrO s -> 0 <= cnt0 s -> tb s <= now s -> OTO e S (outs s) -> NWw s' -> Slack S (outs s') -> 0 <= S ->
+  s' = boot e c s -> wf_cfg c -> TrO s -> 0 <= cnt0 s -> tb s <= now s -> 0 <= upc s -> upc s * 4294967296 <= cnt0 s + (now s - tb s) -> OTO e S (outs s) -> NWw s' -> Slack S (outs s') -> 0 <= S ->
   J e S s' /\ (exists add, outs s' = add ++ outs s /\ forall tcb ch tg t0 dur u0 u, In (GFinish tcb ch tg t0 dur u0 u) add -> now s <= t0).
 Proof.
-  intros Es' W TO C0 Ct OT N SL HS. unfold boot, boot_l in Es'.
-  remember (t_arm TUP UPTIME_POLL_MS true (set_upc 0 (set_upl 0 (set_seqc 0 (set_li 0 (set_tcd tmr0 (set_tsv tmr0 (set_tup tmr0 s)))))))) as s1 eqn:Es1.
+  intros Es' W TO C0 Ct Cu CL OT N SL HS. unfold boot, boot_l in Es'.
+  remember (t_arm TUP UPTIME_POLL_MS true (set_upl 0 (set_seqc 0 (set_li 0 (set_tcd tmr0 (set_tsv tmr0 (set_tup tmr0 s))))))) as s1 eqn:Es1.
   remember (set_ram_relay (fl_relay s1) (set_ram_t2 (fl_t2 s1) s1)) as s2 eqn:Es2.
   remember (set_slots (repeat slot_free 8) (set_delay 0 s2)) as s3 eqn:Es3.
   remember (set_chfl (if c_lateflags c then map (fun _ => 0) (c_relays c) else map r_chfl (c_relays c)) s3) as s4 eqn:Es4.
   remember (set_obuf [] (set_regreq false (set_queue [] (set_conn false (set_reg false (set_gout 0 s4)))))) as s5 eqn:Es5.
   remember (fold_left (restore_relay false c) (enum 0 (c_relays c)) s5) as s6 eqn:Es6.
   assert (A5 : slots s5 = repeat slot_free 8 /\ delay s5 = 0 /\ tcd s5 = tmr0 /\ cnt0 s5 = cnt0 s /\ tb s5 = tb s /\ now s5 = now s /\
-               upc s5 = 0 /\ upl s5 = 0 /\ outs s5 = outs s).
+               upc s5 = upc s /\ upl s5 = 0 /\ outs s5 = outs s).
   { subst s5 s4 s3 s2 s1. cbn. repeat split; reflexivity. }
   destruct A5 as (a1 & a2 & a3 & a4 & a5 & a6 & a7 & a8 & a9).
   assert (G5 : Good s5).
@@ -2433,7 +2438,7 @@ Lemma step_outs e c s x : wf_ev x -> exists add, outs (step e c s x) = add ++ ou
 Proof.
   intros Wx. destruct (is_crash x) eqn:EC.
   - destruct x; try discriminate. unfold step, crash.
-    destruct (boot_outs e c (set_tb (now s) (set_cnt0 (c_boot2 c) (emit (OReboot (now s)) s)))) as (a & E).
+    destruct (boot_outs e c (set_upc 0 (set_tb (now s) (set_cnt0 (c_boot2 c) (emit (OReboot (now s)) s))))) as (a & E).
     eexists (_ :: a ++ [OReboot (now s)]). cbn [outs emit set_outs]. rewrite E. cbn [outs set_tb set_cnt0 emit set_outs].
     cbn [app]. rewrite <- app_assoc. reflexivity.
   - apply (step_frame e c s x EC). intros dt ->. exact Wx.
@@ -2464,7 +2469,7 @@ Proof.
     - destruct (advance_spec e c dt s _ eq_refl W G N1) as (G1 & E1 & Nw).
       destruct (advance_J e S c dt s _ eq_refl W G Jj N1 SL1 HS). split; [auto|]. split; [pose proof (advance_frame e c dt s Wx) as F; apply F|]. auto.
     - unfold crash in *.
-      remember (set_tb (now s) (set_cnt0 (c_boot2 c) (emit (OReboot (now s)) s))) as s0 eqn:Es0.
+      remember (set_upc 0 (set_tb (now s) (set_cnt0 (c_boot2 c) (emit (OReboot (now s)) s)))) as s0 eqn:Es0.
       assert (N0 : now s0 = now s) by (subst s0; reflexivity).
       assert (O0 : outs s0 = OReboot (now s) :: outs s) by (subst s0; reflexivity).
       assert (TO : TrO s0).
@@ -2473,10 +2478,12 @@ Proof.
         - cbn [fins]. auto. }
       assert (C0 : 0 <= cnt0 s0) by (subst s0; cbn; apply (wf_boot2 _ W)).
       assert (Ct : tb s0 <= now s0) by (subst s0; cbn; lia).
+      assert (Cu : 0 <= upc s0) by (subst s0; cbn; lia).
+      assert (CL : upc s0 * 4294967296 <= cnt0 s0 + (now s0 - tb s0)) by (subst s0; cbn; pose proof (wf_boot2 _ W); lia).
       assert (OT0 : OTO e S (outs s0)).
       { intros He tcb ch tg t0 dur u0 u H. rewrite O0 in H. destruct H as [E|H]; [discriminate|]. eapply (j_ot _ _ _ Jj); eauto. }
-      destruct (boot_spec e c s0 _ eq_refl W TO C0 Ct N1) as (G1 & A1 & A2 & A3 & (add & A4) & A5).
-      destruct (boot_J e S c s0 _ eq_refl W TO C0 Ct OT0 N1 SL1 HS) as (J1 & (add' & O' & Sr')).
+      destruct (boot_spec e c s0 _ eq_refl W TO C0 Ct Cu CL N1) as (G1 & A1 & A2 & A3 & (add & A4) & A5).
+      destruct (boot_J e S c s0 _ eq_refl W TO C0 Ct Cu CL OT0 N1 SL1 HS) as (J1 & (add' & O' & Sr')).
       split; [auto|]. split; [lia|]. split.
       + intros y Hy Ay. right. split; auto. specialize (A5 y Hy Ay). lia.
       + split; [auto|]. exists (add' ++ [OReboot (now s)]). split; [rewrite O', O0, <- app_assoc; reflexivity|].
@@ -2517,9 +2524,12 @@ Proof.
   assert (TO : TrO (init c)) by (constructor; cbn; [intros; contradiction|constructor]).
   assert (C0 : 0 <= cnt0 (init c)) by (cbn; apply (wf_boot _ W)).
   assert (Ct : tb (init c) <= now (init c)) by (cbn; lia).
+  assert (Cu : 0 <= upc (init c)) by (cbn; apply Z.div_pos; [apply (wf_boot _ W)|lia]).
+  assert (CL : upc (init c) * 4294967296 <= cnt0 (init c) + (now (init c) - tb (init c))).
+  { cbn [upc cnt0 now tb init]. pose proof (Z.mul_div_le (c_boot c) 4294967296 ltac:(lia)). lia. }
   assert (OT0 : OTO e S (outs (init c))) by (intros _ tcb ch tg t0 dur u0 u H; contradiction).
-  destruct (boot_spec e c (init c) s eq_refl W TO C0 Ct N1) as (G & _).
-  destruct (boot_J e S c (init c) s eq_refl W TO C0 Ct OT0 N1 SL1 HS) as (Jj & _).
+  destruct (boot_spec e c (init c) s eq_refl W TO C0 Ct Cu CL N1) as (G & _).
+  destruct (boot_J e S c (init c) s eq_refl W TO C0 Ct Cu CL OT0 N1 SL1 HS) as (Jj & _).
   eapply J_passive; eauto.
 Qed.
 
